@@ -67,6 +67,10 @@ Manifold& Obj(Shared& s, const std::string& o) {
 void DoCall(Shared& s, const json& c, Ans& a) {
   const std::string k = c[0];
   if (k == "reserve") { (void)Manifold::ReserveIDs(1); return; }
+  if (k == "reservespin") {   // keeps allocating IDs while other threads evaluate
+    for (long i = 0, n = c[1].get<long>(); i < n; i++) (void)Manifold::ReserveIDs(1);
+    return;
+  }
   if (k == "cancel") { s.ctx.Cancel(); return; }
   if (k == "progress") { const double p = s.ctx.Progress(); if (p < 0 || p > 1.0000001) a.v.push_back("progress-out-of-range"); return; }
   if (k == "xsarea") { a.addd("xsarea", s.xs.Area()); return; }
